@@ -92,7 +92,15 @@ def gen_cases(seed, tier, insts):
     # ---- default construction (one line per instantiation)
     for inst in insts:
         c = Case(inst, [p if p is not None else 0 for p in inst[2]], strides=[0] * len(inst[2]) if inst[0] == 'stride' else None, stream='default-ctor')
-        c.ops = [('dflt', None)]; cases.append(c)
+        c.ops = [('dflt', None)]
+        if all(p is not None and p > 0 for p in inst[2]) and inst[2]:      # all-static, non-empty: the default mapping has elements
+            ext = list(inst[2]); r = len(ext)
+            if C.prod(ext) > 81: idx = [[0] * r, [e - 1 for e in ext]] + [[1 if k == j else 0 for k in range(r)] for j in range(r) if ext[j] > 1] + [[rnd.randrange(e) for e in ext] for _ in range(12)]
+            else: idx = all_indices(ext); c.idx_complete = True
+            seen = set()
+            for i in idx:
+                if tuple(i) not in seen: seen.add(tuple(i)); c.ops.append(('dfltoff', C.fmt(i)))
+        cases.append(c)
     # ---- boundary lattice (admissible and beyond)
     dyn = {}
     for inst in insts:
@@ -129,6 +137,22 @@ def gen_cases(seed, tier, insts):
                 else: c = Case(inst, ext, stream='boundary')
                 c.ops = [('span', None), ('strides', None), ('stridesarr', None), ('flags', None)] + [('off', C.fmt(i)) for i in idxs]
                 cases.append(c)
+    # ---- layout_stride with one large gap: the outermost stride is chosen so that stride*extent is congruent to the
+    #      element count modulo 2^bits (a product that wraps onto the "exhaustive" value) while the span stays representable
+    for t in C.ITYPES:
+        H = C.hi(t); bits = C.ITYPES[t][0]
+        for r in (2, 3):
+            inst = dyn.get(('stride', t, r))
+            if inst is None: continue
+            for ext in itertools.product((2, 3, 4), repeat=r):
+                ext = list(ext); n = C.prod(ext)
+                for m in ((1 << bits), (1 << (bits - 1))):
+                    if (m + n) % ext[-1]: continue
+                    big = (m + n) // ext[-1]; st = [C.prod(ext[:k]) for k in range(r - 1)] + [big]
+                    if big > H or 1 + sum((e - 1) * x for e, x in zip(ext, st)) > H or big < C.prod(ext[:-1]): continue
+                    c = Case(inst, ext, strides=st, stream='wrap-congruent-gap'); c.idx_complete = True
+                    c.ops = [('span', None), ('strides', None), ('flags', None)] + [('off', C.fmt(i)) for i in all_indices(ext)]
+                    cases.append(c)
     # ---- padded boundary: extent-to-pad and padding near the top of the type, other extents 0/1/2
     for t in C.ITYPES:
         H = C.hi(t)
